@@ -43,6 +43,18 @@ def body(c):
         if not hist.get(need):
             raise vlib.Inconclusive("generated workloads contain no %s" % need)
     results, nchecks, classes = D.crash_campaign(c, cases, D.PL_STRICT, "power-loss", full_confirm=1 if q else 3)
+    # concurrent committers written as one batch across a memtable rotation (acknowledged requests in
+    # the WAL that was rotated away must be durable too)
+    mw = D.multi_workloads(c, 1 if q else 4, c.seed)
+    rm, nm, clm = D.crash_campaign(c, mw, D.PL_STRICT, "power-loss(batch of concurrent committers across a rotation)",
+                                   full_confirm=0 if q else 1)
+    for r in rm:
+        m = json.load(open(os.path.join(r["dir"], "run.json")))
+        if not any(f.startswith("00002.mem") for im in m["images"] for f in (im["files"] or [])):
+            raise vlib.Inconclusive("multi workload did not rotate the memtable")
+    results = results + rm
+    nchecks += nm
+    classes = classes | set("multi|" + x for x in clm)
     traces = [os.path.join(r["dir"], "trace.ndjson") for r in results]
     rej, strict = D.validate_traces(c, traces, "sync-workloads")
     if rej:
